@@ -27,6 +27,14 @@ class Leaf:
     def __repr__(self):
         return f'L{self.i}'
 
+    def __bool__(self):
+        return self.i % 3 != 0
+
+    def __radd__(self, other):
+        if isinstance(other, tuple):
+            return (*other, self.i)
+        return NotImplemented
+
 
 # ---------------------------------------------------------------------------------------------
 # built-in look-alikes (must be leaves under every configuration)
@@ -73,6 +81,15 @@ class UKey:
         return f'UKey({self.n})'
 
 
+RECORD = False
+CALLS = []  # (what, tag, id(obj)) appended by custom flatten / unflatten functions when RECORD
+
+
+def _rec(what, tag, obj):
+    if RECORD:
+        CALLS.append((what, tag, id(obj)))
+
+
 NT0 = namedtuple('NT0', '')
 NT1 = namedtuple('NT1', 'p')
 NT2 = namedtuple('NT2', 'x y')
@@ -109,6 +126,7 @@ class CG:
         self.children = list(children)
 
     def tree_flatten(self):
+        _rec('flatten', 'tag:CG@global', self)
         return tuple(self.children), 'tag:CG@global', None
 
     @classmethod
@@ -150,6 +168,7 @@ class CN:
 
 
 def cn_flatten(obj):
+    _rec('flatten', 'tag:CN@ns', obj)
     return (
         list(obj.children),
         ('tag:CN@ns', obj.meta),
@@ -177,6 +196,7 @@ class CD:
 
 
 def cd_flatten(obj):
+    _rec('flatten', 'tag:CD@ns', obj)
     keys = tuple(sorted(obj.data, reverse=True))
     return tuple(obj.data[k] for k in keys), ('tag:CD@ns', keys), keys
 
@@ -201,6 +221,7 @@ class CS:
 
 
 def cs_flatten_global(obj):
+    _rec('flatten', 'tag:CS@global', obj)
     return tuple(obj.children), 'tag:CS@global'
 
 
@@ -210,6 +231,7 @@ def cs_unflatten_global(metadata, children):
 
 
 def cs_flatten_ns(obj):
+    _rec('flatten', 'tag:CS@ns', obj)
     n = len(obj.children)
     return tuple(reversed(obj.children)), 'tag:CS@ns', tuple(range(n - 1, -1, -1))
 
@@ -217,6 +239,67 @@ def cs_flatten_ns(obj):
 def cs_unflatten_ns(metadata, children):
     assert metadata == 'tag:CS@ns'
     return CS(reversed(list(children)))
+
+
+class CM:
+    """Custom node whose flatten function misbehaves according to `mode` (registered in 'ns')."""
+
+    def __init__(self, children, mode='ok'):
+        self.children = list(children)
+        self.mode = mode
+
+    def __repr__(self):
+        return f'CM({len(self.children)} children, {self.mode!r})'
+
+
+CM_MODES = (
+    'ok', 'tuple0', 'tuple1', 'tuple4', 'returns-none', 'returns-int', 'returns-list',
+    'children-int', 'children-none', 'children-generator', 'children-list',
+    'entries-short', 'entries-long', 'entries-int', 'entries-list', 'entries-none',
+)
+
+
+def cm_flatten(o):  # noqa: C901, PLR0911, PLR0912
+    ch = tuple(o.children)
+    ents = tuple(f'k{i}' for i in range(len(ch)))
+    m = o.mode
+    if m == 'ok':
+        return ch, 'tag:CM@ns', ents
+    if m == 'tuple0':
+        return ()
+    if m == 'tuple1':
+        return (ch,)
+    if m == 'tuple4':
+        return (ch, None, None, None)
+    if m == 'returns-none':
+        return None
+    if m == 'returns-int':
+        return 5
+    if m == 'returns-list':
+        return [ch, 'tag:CM@ns']
+    if m == 'children-int':
+        return 5, None
+    if m == 'children-none':
+        return None, None
+    if m == 'children-generator':
+        return (c for c in ch), 'tag:CM@ns'
+    if m == 'children-list':
+        return list(ch), 'tag:CM@ns', list(ents)
+    if m == 'entries-short':
+        return ch, None, ents[:-1]
+    if m == 'entries-long':
+        return ch, None, (*ents, 'extra')
+    if m == 'entries-int':
+        return ch, None, 5
+    if m == 'entries-list':
+        return ch, 'tag:CM@ns', list(ents)
+    if m == 'entries-none':
+        return ch, 'tag:CM@ns', None
+    raise AssertionError(m)
+
+
+def cm_unflatten(metadata, children):
+    return CM(children)
 
 
 class Reg:
@@ -269,6 +352,9 @@ class Universe:
                   'tag:CS@global')
         optree.register_pytree_node(CS, cs_flatten_ns, cs_unflatten_ns, namespace='ns')
         self._add(CS, 'ns', cs_flatten_ns, cs_unflatten_ns, optree.accessor.AutoEntry, 'tag:CS@ns')
+
+        optree.register_pytree_node(CM, cm_flatten, cm_unflatten, namespace='ns')
+        self._add(CM, 'ns', cm_flatten, cm_unflatten, optree.accessor.AutoEntry, 'tag:CM@ns')
 
         import dataclasses as std_dc  # noqa: PLC0415
 
